@@ -3,7 +3,9 @@ against the real Qt, on seeded random nondet streams.  A disagreement fails (exi
 import os, sys, subprocess, random, shutil
 DRIVERS = [
     # (source, function, defines, runs)
-    ('drv_regex.cpp', 'h_conf_regex', {'QM_STR_CAP': 64, 'QM_LIST_CAP': 4, 'QM_HASH_CAP': 4}, 600),
+    ('drv_regex.cpp', 'h_conf_regex', {'QM_STR_CAP': 64, 'QM_LIST_CAP': 4, 'QM_HASH_CAP': 4}, 2500),
+    ('drv_regex.cpp', 'h_conf_flat', {'QM_STR_CAP': 24, 'QM_LIST_CAP': 4, 'QM_HASH_CAP': 4, 'QM_RX_FLAT': 1}, 800),
+    ('drv_regex.cpp', 'h_conf_wild', {'QM_STR_CAP': 40, 'QM_LIST_CAP': 4, 'QM_HASH_CAP': 4, 'QM_RX_FLAT': 1}, 500),
     ('drv_string.cpp', 'h_conf_string', {'QM_STR_CAP': 24, 'QM_LIST_CAP': 8, 'QM_HASH_CAP': 4}, 1500),
 ]
 QT_INC = ['-isystem', '/usr/include/x86_64-linux-gnu/qt5', '-isystem', '/usr/include/x86_64-linux-gnu/qt5/QtCore', '-isystem', '/usr/lib/x86_64-linux-gnu/qt5/mkspecs/linux-g++']
